@@ -1399,9 +1399,59 @@ sh!(l_burst_upd0_inv0_room, l_burst(&sc(1, Some(3), false, W1, true, false, fals
 // a queued update of the resident that the admission of a hot newcomer picks as victim
 sh!(l_burst_ins1_upd0_cap1_hot, l_burst(&sc(1, Some(1), false, W1, false, false, false, 1), 2, 1, &[Ins(1, 0), Ins(0, 1)]));
 // weighted: the resident's update SHRINKS it (7 -> 3) while it is still counted with 7; the hot newcomer (1) is judged first
-sh!(l_burst_ins1_shrink0_w_cap7_hot, l_burst(&sc(1, Some(7), true, WT_S, false, false, false, 1), 2, 1, &[Ins(1, 0), Ins(0, 1)]));
+// (the order [Ins(1), shrink(0)] is decided step-wise by l_upsert_admission_dirty_victim_*: the whole burst gave no verdict in 40 min)
 sh!(l_burst_shrink0_ins1_w_cap7_hot, l_burst(&sc(1, Some(7), true, WT_S, false, false, false, 1), 2, 1, &[Ins(0, 1), Ins(1, 0)]));
 sh!(l_burst_upd0_ins1_cap1_hot, l_burst(&sc(1, Some(1), false, W1, false, false, false, 1), 2, 1, &[Ins(0, 1), Ins(1, 0)]));
+
+// ================================================================================================
+// C10 / C04 / C03: admission over a victim that has a PENDING UPDATE. The resident (counted with
+// weight 7) was updated in place to weight 3 after the newcomer's insert was queued, so the shared
+// EntryInfo already says 3 while the counters still hold 7 (its Upsert{old 7, new 3} is queued BEHIND
+// the newcomer's). Whatever the admission decides, once both ops are applied the counters must equal
+// what the cache physically holds.
+// ================================================================================================
+fn l_upsert_admission_dirty_victim(second: bool) {
+    sketch_mode(2, 1);
+    let st = sbuild(&sc(1, Some(7), true, WT_S, false, false, false, 1));
+    let g = st.g;
+    let inner = &*st.b.inner;
+    let vb = Val { cls: 0, data: kani::any() };
+    let (op_b, _) = st.b.do_insert_with_hash(Arc::new(1u8), IdH::h(1), vb);            // weight 1: 7 + 1 > 7
+    if let WriteOp::Upsert { ref value_entry, .. } = op_b {
+        crate::common::concurrent::entry_info::verif_entry_info::register_w(value_entry.entry_info(), 1, false, false, g.weigh(1, vb));
+    }
+    let va = Val { cls: 1, data: kani::any() };
+    let (op_a, _) = st.b.do_insert_with_hash(Arc::new(0u8), IdH::h(0), va);            // shrinking update 7 -> 3
+    let mut counters = EvictionCounters::new(g.ec, g.ws);
+    kani::cover!(true, "inputs chosen");
+    {
+        let mut deqs = inner.deques.lock().expect("lock poisoned");
+        let freq = inner.frequency_sketch.read().expect("lock poisoned");
+        if let WriteOp::Upsert { key_hash, value_entry, old_weight, new_weight } = op_b {
+            assert!(old_weight == 0 && new_weight == 1, "VERIF-BOUND: harness weights");
+            inner.handle_upsert(key_hash, value_entry, old_weight, new_weight, &mut deqs, &freq, &mut counters);
+        }
+        if second {
+            if let WriteOp::Upsert { key_hash, value_entry, old_weight, new_weight } = op_a {
+                assert!(old_weight == 7 && new_weight == 3, "VERIF-BOUND: harness weights");
+                inner.handle_upsert(key_hash, value_entry, old_weight, new_weight, &mut deqs, &freq, &mut counters);
+            }
+        } else {
+            std::mem::forget(op_a);
+        }
+    }
+    let a_in = inner.cache.get(&0u8).is_some();
+    let b_in = inner.cache.get(&1u8).is_some();
+    // counted weight of the resident while its update is pending = the op's old weight (7), afterwards 3
+    let wa: u64 = if second { 3 } else { 7 };
+    let want = (if a_in { wa } else { 0 }) + (if b_in { 1 } else { 0 });
+    assert!(counters.entry_count == (a_in as u64) + (b_in as u64), "C10: entry_count != entries physically held after an admission over a victim with a pending update");
+    assert!(counters.weighted_size == want, "C10,C04,C03: weighted_size != weight physically held: a victim with a pending update was un-counted with the weight of its QUEUED update instead of the weight that had been counted for it");
+    kani::cover!(true, "end reached");
+    std::mem::forget(st);
+}
+sh!(l_upsert_admission_dirty_victim_step1, l_upsert_admission_dirty_victim(false));
+sh!(l_upsert_admission_dirty_victim_both, l_upsert_admission_dirty_victim(true));
 
 // ================================================================================================
 // C09: shard-guard discipline of the lookups. get() may trigger inline maintenance when it records
